@@ -1,6 +1,7 @@
 import Dbus.Model.Bus.Table
 import Dbus.Model.Bus.Raw
 import Dbus.Model.Bus.Fds
+import Dbus.Model.Bus.Oom
 import Driver.Wire
 /- driver commands for the message-bus model -/
 open Dbus Dbus.Spec Dbus.Model Dbus.Model.Bus
@@ -117,6 +118,14 @@ def busCmd0 (st : BusState) (toks : List String) : BusState × String :=
     let ps := pend.map fun p => s!"{p.1}:{",".intercalate (p.2.map toString)}"
     (st, s!"pending={if ps.isEmpty then "-" else " ".intercalate ps} open={(pend.map (·.2.length)).sum} closed={st.closed.length}")
   | ["nop"] => (st, "-")
+  | ["oom", c, hex] =>
+    -- the message is handled by a bus that runs out of memory: the contract of C14
+    match c.toNat?, ofHex hex with
+    | some c, some bs =>
+      match loadOne true st.maxMsg 16 bs with
+      | .ok m n => if n = bs.length then (st, showTx (stepOom st.bus c m)) else (st, "bad-op")
+      | _ => (st, "bad-op")
+    | _, _ => (st, "bad-op")
   | ["close", c] =>
     match c.toNat? with
     | some c =>
